@@ -362,7 +362,7 @@ def embed(inst, smap, pmap, lmap=None):
 def id_maps(draw, inst):
     """Drawn sparse id maps (students, projects, lecturers) for embed()."""
     pools = [ID_POOL, ID_POOL, ID_POOL]
-    if pct(draw) < 12:
+    if pct(draw) < 30:
         # one side gets ids beyond CPython's small-int cache (identity vs equality on ints)
         pools[draw(st.sampled_from([0, 1, 2]))] = BIG_ID_POOL
     smap = list(draw(st.permutations(pools[0])))[:inst['n1']]
@@ -392,3 +392,45 @@ def siblings(draw, inst):
         s['lprefs'] = [list(reversed(g)) for g in s['lprefs']]
     s['cls'] = 'sibling'
     return s
+
+
+@st.composite
+def crowd_instances(draw, two_sided=True):
+    """Hundreds of students competing for two or three hospitals / projects: counts and ranks
+    beyond 127 and 255 (narrow integer types), three-digit statistics.  No enumeration is
+    possible on these; only oracles that work on a single matching apply."""
+    n1 = draw(st.sampled_from([129, 130, 200, 257, 260]))
+    n2 = draw(st.sampled_from([2, 3]))
+    na = draw(st.sampled_from([2, 2, 3]))
+    first = draw(st.sampled_from([1, 1, 2]))
+    prefs = []
+    for i in range(n1):
+        k = draw(st.sampled_from([0, 0, 0, 1, 2]))        # how many further entries
+        rest = [p for p in range(1, n2 + 1) if p != first][:k]
+        prefs.append([[first]] + [[p] for p in rest])
+    cap1 = draw(st.sampled_from([1, 5, 127, 128, 130, n1]))
+    puq = [n1] * n2
+    puq[first - 1] = cap1
+    inst = {'na': na, 'n1': n1, 'n2': n2, 'prefs': prefs, 'plq': [0] * n2, 'puq': puq,
+            'cls': 'crowd'}
+    if na == 3:
+        n3 = draw(st.sampled_from([1, 2]))
+        plec = [1 + (j % n3) for j in range(n2)]
+        luq = [sum(puq[j] for j in range(n2) if plec[j] == k + 1) for k in range(n3)]
+        inst.update(n3=n3, plec=plec, llq=[0] * n3, lt=[min(u, 100) for u in luq], luq=luq)
+    else:
+        inst.update(n3=n2, plec=list(range(1, n2 + 1)), llq=[0] * n2, lt=list(puq),
+                    luq=list(puq))
+    if two_sided:
+        rev = draw(st.booleans())
+        lprefs = []
+        for k in range(inst['n3']):
+            sts = [i + 1 for i in range(n1)
+                   if any(inst['plec'][p - 1] == k + 1 for g in prefs[i] for p in g)]
+            if rev:
+                sts = list(reversed(sts))
+            lprefs.append([[s] for s in sts])
+        inst['lprefs'] = lprefs
+    else:
+        inst['lprefs'] = None
+    return inst
